@@ -119,7 +119,7 @@ def _selftest(c, events):
     """binding self-test: every clause of the property must be able to reject a corrupted copy of an accepted run"""
     good = None
     for e in events:
-        if (e['ev'] == 'run' and e['mates'] == 2 and e['hasRej'] and not e['percell'] and not e['raised'] and len(e['strategies']) == 1
+        if (e['ev'] == 'run' and e['mates'] == 2 and e['hasRej'] and not e['percell'] and not e['raised'] and len(e['strategies']) == 1 and e['logged']
                 and len(e['tgt'][0]['mates'][0]['recs']) >= 3 and len(e['rej'][0]['mates'][0]['recs']) >= 2):
             good = e
             break
